@@ -16,6 +16,7 @@ import (
 // released) and as yield point (seeded delay injection).
 
 type tev struct {
+	T     int64         `json:"t"` // nanoseconds since the tracer was created (monotonic)
 	Seq   int           `json:"seq"`
 	Point string        `json:"p"`
 	Conn  string        `json:"c"` // label of the first hook argument: ws-client#1, ws-server#2, client#1, handler#1, harness
@@ -39,10 +40,11 @@ type tracer struct {
 	gates  []*gate
 	yield  func(point string) time.Duration
 	hits   map[string]int
+	t0     time.Time
 }
 
 func newTracer() *tracer {
-	return &tracer{labels: map[uintptr]string{}, counts: map[string]int{}, hits: map[string]int{}}
+	return &tracer{labels: map[uintptr]string{}, counts: map[string]int{}, hits: map[string]int{}, t0: time.Now()}
 }
 
 func (t *tracer) label(c interface{}) string {
@@ -108,7 +110,7 @@ func (t *tracer) hook(point string, args ...interface{}) {
 			rest = append(rest, canon(a))
 		}
 	}
-	t.evs = append(t.evs, tev{Seq: len(t.evs), Point: point, Conn: conn, Args: rest})
+	t.evs = append(t.evs, tev{T: int64(time.Since(t.t0)), Seq: len(t.evs), Point: point, Conn: conn, Args: rest})
 	t.hits[point]++
 	var g *gate
 	for _, x := range t.gates {
@@ -134,7 +136,7 @@ func (t *tracer) hook(point string, args ...interface{}) {
 // harness-side event
 func (t *tracer) ev(point string, args ...interface{}) {
 	t.mu.Lock()
-	t.evs = append(t.evs, tev{Seq: len(t.evs), Point: point, Conn: "harness", Args: args})
+	t.evs = append(t.evs, tev{T: int64(time.Since(t.t0)), Seq: len(t.evs), Point: point, Conn: "harness", Args: args})
 	t.mu.Unlock()
 }
 
